@@ -213,6 +213,7 @@ impl C08 {
         if ok.result.is_err() {
             return fail("c08.success_ok", "diff failed although no hook call failed".into());
         }
+        crate::engine::trace(|| format!("{:?} {:?} fault-free: calls reaching the hook = {:?}", case.stack, seq.alg, ok.calls));
         let nfinish = ok.calls.iter().filter(|c| **c == Call::Finish).count();
         let no_finish = matches!(
             case.stack,
@@ -315,6 +316,7 @@ impl C08 {
                 detail: format!("k={}: {}", k, m),
             })?;
             out.execs += 1;
+            crate::engine::trace(|| format!("{:?} {:?} expire_at={:?}: hook fails at call {} ({:?}) -> returned {:?}, calls delivered {}, calls after error {}", case.stack, seq.alg, case.expire_at, k, ok.calls[k], run.result, run.calls.len(), run.after_error));
             match run.result {
                 Ok(()) => {
                     return fail(
